@@ -10,6 +10,7 @@ import (
 	"crypto/ecdsa"
 	"encoding/base64"
 	"encoding/json"
+	"errors"
 	"fmt"
 	"strings"
 
@@ -117,7 +118,12 @@ func fetchSKIDFromAPU(jwe *JSONWebEncryption) (string, bool) {
 	// use apu as skid instead.
 	if len(jwe.Recipients) > 1 {
 		if a, apuOK := jwe.ProtectedHeaders["apu"]; apuOK {
-			skidBytes, err := base64.RawURLEncoding.DecodeString(a.(string))
+			apu, isString := a.(string)
+			if !isString {
+				return "", false
+			}
+
+			skidBytes, err := base64.RawURLEncoding.DecodeString(apu)
 			if err != nil {
 				return "", false
 			}
@@ -275,6 +281,10 @@ func buildRecipientsWrappedKey(jwe *JSONWebEncryption) ([]*cryptoapi.RecipientWr
 	)
 
 	for _, recJWE := range jwe.Recipients {
+		if recJWE == nil {
+			return nil, errors.New("invalid (null) recipient")
+		}
+
 		headers := recJWE.Header
 		alg, ok := jwe.ProtectedHeaders.Algorithm()
 		is1PU := ok && strings.Contains(strings.ToUpper(alg), "1PU")
@@ -290,7 +300,15 @@ func buildRecipientsWrappedKey(jwe *JSONWebEncryption) ([]*cryptoapi.RecipientWr
 		var recWK *cryptoapi.RecipientWrappedKey
 		// set kid if 1PU (authcrypt) with multi recipients since common protected headers don't have the recipient kid.
 		if is1PU && len(jwe.Recipients) > 1 {
+			if recJWE.Header == nil {
+				return nil, errors.New("recipient without header")
+			}
+
 			headers.KID = recJWE.Header.KID
+		}
+
+		if headers == nil {
+			return nil, errors.New("recipient without header")
 		}
 
 		recWK, err = createRecWK(headers, []byte(recJWE.EncryptedKey))
